@@ -301,7 +301,23 @@ def coverage_required(ctx):
                       + ", ".join(missing), no_input=True)
 
 
+def source_hashes():
+    """sha256 of the anchored sources and of this check's own driver files (recorded in the evidence)"""
+    import hashlib
+    out = {}
+    for f in ("kvcache/causal.go", "kvcache/wrapper.go", "kvcache/encoder.go", "kvcache/cache.go"):
+        try:
+            out[f] = hashlib.sha256(open(os.path.join(core.REPO, f), "rb").read()).hexdigest()[:16]
+        except OSError:
+            out[f] = "missing"
+    for f in ("harness/overlay/kvcache/zz_verif_c06_test.go", "harness/overlay/kvcache/zz_verif_c06_tables_test.go",
+              "vlib/checks/c06.py"):
+        out[f] = hashlib.sha256(open(os.path.join(core.ROOT, f), "rb").read()).hexdigest()[:16]
+    return out
+
+
 def run(ctx):
+    ctx.coverage["sources_sha256_16"] = source_hashes()
     variant, how = probe_variant(ctx)
     ctx.lean_check(MODULES, THEOREMS)
     ctx.coverage["model_variant"] = variant
